@@ -46,6 +46,11 @@ pub enum Case {
     Hostile { recs: Vec<HostileRec>, prog: Program },
     Fault(c13::Case),
     Crash(c04::Case),
+    /// while every retrieval entry point runs on a large entry, another thread of the process
+    /// keeps cutting the content file short in place and restoring it (what re-creating a
+    /// hard-linked-out file, or rewriting a link target, does to the cache's file): any result
+    /// is fine, a dead process is not
+    Sabotage { len: usize, rounds: u8 },
 }
 
 pub struct C20;
@@ -291,6 +296,18 @@ impl Engine for C20 {
             steps.push(Step { op: Op::Extract { kind: XKind::Copy, checked: true, by: By::Key(1), dest: Dest::Absent }, fl: Fl::Async });
             out.push(Case::Program { prog: Program { keys: hkeys, blobs: hblobs, steps }, root: Root::Dir });
         }
+        out.push(Case::Sabotage { len: 6 << 20, rounds: 6 });
+        out.push(Case::Sabotage { len: 300_000, rounds: 12 });
+        // a writer opened while 70 / 140 / 300 others are open in the same process
+        for crowd in [70u16, 140, 300] {
+            for fl in [Fl::Sync, Fl::Async] {
+                let mut w = WriteSpec::simple(Some(0), 1);
+                w.entry = WEntry::Opts;
+                w.chunks = vec![4];
+                w.crowd = crowd;
+                out.push(Case::Program { prog: Program { keys: keys.clone(), blobs: blobs.clone(), steps: vec![Step { op: Op::Write(w), fl }, Step { op: Op::Read { key: 0 }, fl }] }, root: Root::Dir });
+            }
+        }
         for (n, i) in ints.into_iter().enumerate() {
             let mut steps = Vec::new();
             for fl in [Fl::Sync, Fl::Async] {
@@ -323,6 +340,65 @@ impl Engine for C20 {
         let before = crate::exec::FOREIGN_PANICS.lock().unwrap_or_else(|e| e.into_inner()).len();
         let nontrivial;
         match c {
+            Case::Sabotage { len, rounds } => {
+                env.scratch.reset();
+                let keys = vec!["sabotaged".to_string()];
+                let blobs = vec![crate::blob::Blob::new(*len, 91)];
+                let ctx = Ctx::new(env.scratch.cache.clone(), env.scratch.scratch.clone(), &keys, &blobs);
+                let r = run_step(&ctx, &Step { op: Op::Write(WriteSpec::simple(Some(0), 0)), fl: Fl::Sync });
+                if !matches!(r.out, Out::Int(_)) {
+                    return Err(format!("set-up write failed: {}", r.out.short()));
+                }
+                let a = AddrRef { algo: crate::blob::Algo::Sha256, blob: 0 };
+                let path = ctx.content_path(a);
+                let data = ctx.blob(0);
+                let stop = std::sync::atomic::AtomicBool::new(false);
+                let mut problem: Option<String> = None;
+                std::thread::scope(|sc| {
+                    sc.spawn(|| {
+                        // cut in place, restore in place (same inode), again and again
+                        while !stop.load(std::sync::atomic::Ordering::SeqCst) {
+                            if let Ok(f) = std::fs::OpenOptions::new().write(true).open(&path) {
+                                let _ = f.set_len((*len / 3) as u64);
+                                std::thread::sleep(std::time::Duration::from_micros(300));
+                                use std::io::Write;
+                                let mut f = f;
+                                let _ = f.set_len(0);
+                                let _ = f.write_all(&data);
+                            }
+                            std::thread::sleep(std::time::Duration::from_micros(300));
+                        }
+                    });
+                    'outer: for _ in 0..*rounds {
+                        for fl in [Fl::Sync, Fl::Async] {
+                            for op in [
+                                Op::Read { key: 0 },
+                                Op::ReadHash { addr: a },
+                                Op::Stream { by: By::Key(0), bufs: vec![65536] },
+                                Op::Extract { kind: XKind::Copy, checked: true, by: By::Key(0), dest: Dest::Absent },
+                                Op::Extract { kind: XKind::Copy, checked: true, by: By::Addr(a), dest: Dest::Absent },
+                                Op::Extract { kind: XKind::HardLink, checked: true, by: By::Key(0), dest: Dest::Absent },
+                                Op::Extract { kind: XKind::HardLink, checked: true, by: By::Addr(a), dest: Dest::Absent },
+                                Op::Extract { kind: XKind::Reflink, checked: true, by: By::Key(0), dest: Dest::Absent },
+                                Op::Exists { addr: a },
+                            ] {
+                                let r = run_step(&ctx, &Step { op: op.clone(), fl });
+                                st.eval(1);
+                                if r.out.is_panic() {
+                                    problem = Some(format!("{op:?}/{fl:?} while the content file was being cut and restored in place: {}", r.out.short()));
+                                    break 'outer;
+                                }
+                            }
+                        }
+                    }
+                    stop.store(true, std::sync::atomic::Ordering::SeqCst);
+                });
+                if let Some(p) = problem {
+                    return Err(p);
+                }
+                st.class("content_file_cut_and_restored_during_retrievals");
+                nontrivial = true;
+            }
             Case::Program { prog, root } => {
                 env.scratch.reset();
                 let cache = match root {
